@@ -295,3 +295,35 @@ func vxBoolConc(b bool) bool {
 	}
 	return false
 }
+
+// vxCheckFrameVal is vxCheckFrame for a frame whose physical rows are the
+// logical rows 0..n-1 of the expectation (a re-read frame): logical row r must
+// show physical cell ix[r] of the expected columns; floats by value (NaN=NaN).
+func vxCheckFrameVal(f QFrame, names []string, cols []vxCol, ix []uint32, label string) {
+	vx.Check(f.Err == nil, label+": no error")
+	vx.Check(f.Len() == len(ix), label+": row count")
+	got := f.ColumnNames()
+	vx.Check(len(got) == len(names), label+": column count")
+	for k := range names {
+		vx.Check(k < len(got) && got[k] == names[k], label+": column name/order")
+	}
+	if f.Len() != len(ix) || len(got) != len(names) {
+		return
+	}
+	for k, n := range names {
+		for r := range ix {
+			p := int(ix[r])
+			c := cols[k]
+			if c.typ == "float" {
+				v, err := f.FloatView(n)
+				vx.Check(err == nil, label+": column type")
+				if err == nil {
+					x, y := v.ItemAt(r), c.f[p]
+					vx.Check(vx.Or(math.Float64bits(x) == math.Float64bits(y), vx.And(x != x, y != y)), label+": float cell bit-identical (NaN preserved)")
+				}
+				continue
+			}
+			vx.Check(vxCellSame(f, n, c, r, p), label+": cell value")
+		}
+	}
+}
